@@ -137,6 +137,14 @@ def twins(ctx, rep, clause):
                 if isinstance(st, ast.Return) and isinstance(st.value, ast.Call) and \
                         norm_stmt(st.value.func) == 'ProFormaAnnotation':
                     ctor_fields = {kw.arg.lstrip('_'): _strip_copy(kw.value) for kw in st.value.keywords}
+                # a fresh object bound to a local, filled field by field and returned
+                if isinstance(st, ast.Assign) and isinstance(st.targets[0], ast.Name) and isinstance(st.value, ast.Call) and \
+                        norm_stmt(st.value.func) == 'ProFormaAnnotation' and copy_var is None:
+                    ctor_fields = {kw.arg.lstrip('_'): _strip_copy(kw.value) for kw in st.value.keywords}
+                    fresh_var = st.targets[0].id
+                    for f_, c_, v_, _n in _updates(tail, fresh_var):
+                        if not c_:
+                            ctor_fields[f_] = v_
             if copy_var is not None:
                 b = _updates(tail, copy_var)
             elif ctor_fields is not None:
